@@ -544,6 +544,53 @@ fn run_op(w: &mut World, op: &Value) -> Value {
             let h1 = ic_btc_canister::get_blockchain_info().height;
             json!({"traps": traps, "applied": h1 - h0, "last_trap": last_trap})
         }
+        "process_response" => {
+            use ic_btc_canister::runtime::{set_successors_responses, GetSuccessorsReply};
+            use ic_btc_canister::types::{GetSuccessorsCompleteResponse, GetSuccessorsResponse};
+            use bitcoin::consensus::Encodable;
+            if !w.blocks.contains_key(&1) {
+                w.blocks.insert(1, Block::new(bitcoin::blockdata::constants::genesis_block(BtcNetwork::Regtest)));
+            }
+            let mut blobs = vec![];
+            for b in op["blocks"].as_array().unwrap() {
+                let kind = b["kind"].as_str().unwrap();
+                let enc = |blk: &bitcoin::Block| { let mut v = vec![]; blk.consensus_encode(&mut v).unwrap(); v };
+                match kind {
+                    "garbage" => blobs.push(vec![0xde, 0xad, 0xbe, 0xef]),
+                    "dup" => { let id = b["of"].as_u64().unwrap(); blobs.push(enc(w.blocks[&id].internal_bitcoin_block())); }
+                    "orphan" => {
+                        let fake_parent = BlockBuilder::genesis().with_transaction(TransactionBuilder::coinbase().with_lock_time(77).build()).build();
+                        let blk = BlockBuilder::with_prev_header(fake_parent.header).build();
+                        blobs.push(enc(&blk));
+                    }
+                    _ => {
+                        let blk = w.build_block(&json!({"id": b["id"], "parent": b["parent"]}));
+                        let mut raw = blk.internal_bitcoin_block().clone();
+                        if kind == "bad_merkle" {
+                            raw.txdata.push(TransactionBuilder::coinbase().with_lock_time(4242).build());
+                            w.blocks.remove(&b["id"].as_u64().unwrap());
+                        }
+                        let mut bytes = enc(&raw);
+                        if kind == "truncated" { bytes.truncate(bytes.len() - 5); w.blocks.remove(&b["id"].as_u64().unwrap()); }
+                        blobs.push(bytes);
+                    }
+                }
+            }
+            set_successors_responses(vec![GetSuccessorsReply::Ok(GetSuccessorsResponse::Complete(GetSuccessorsCompleteResponse { blocks: blobs, next: vec![] }))]);
+            let mut trap = None;
+            for _ in 0..2 {
+                let r = catch_unwind(AssertUnwindSafe(|| block_on(ic_btc_canister::heartbeat())));
+                if let Err(e) = r {
+                    trap = Some(e.downcast_ref::<String>().cloned().or_else(|| e.downcast_ref::<&str>().map(|s| s.to_string())).unwrap_or_default());
+                    with_state_mut(|s| s.syncing_state.is_fetching_blocks = false);
+                }
+            }
+            let hashes = with_state(|s| unstable_blocks::get_block_hashes(&s.unstable_blocks));
+            let mut ids: Vec<Value> = hashes.iter().map(|h| block_id_of(w, &h.to_vec())).collect();
+            ids.sort_by_key(|v| v.as_u64().unwrap_or(u64::MAX));
+            let (de, ie) = with_state(|s| (s.syncing_state.num_block_deserialize_errors, s.syncing_state.num_insert_block_errors));
+            json!({"tree": ids, "deserialize_errors": de, "insert_errors": ie, "trap": trap})
+        }
         "tree" => {
             let hashes = with_state(|s| unstable_blocks::get_block_hashes(&s.unstable_blocks));
             json!({"blocks": hashes.iter().map(|h| block_id_of(w, &h.to_vec())).collect::<Vec<_>>(),
